@@ -432,6 +432,17 @@ func c11EvalLib(cs c11Case) (out c10Out) {
 	} else {
 		out.count("hdrplot_reports_lib", 1)
 		c11CheckHDR(&out, &cs, "lib-hdrplot", "", arrival, sorted, buf.String(), "")
+		if len(arrival)%2 == 0 {
+			// one reporter used repeatedly (periodic reporting), the first time into an output that fails midway
+			bs, err := reportAgain(vegeta.NewHDRHistogramPlotReporter(&m), 1+buf.Len()/3)
+			if err != nil {
+				out.violate("C11/hdrplot-shape/"+cs.dataClass(), "hdrplot reporter failed when used again: "+err.Error(), c11Witness{Case: cs, Level: "lib-hdrplot-reused-reporter", Clause: "hdrplot-shape", Note: err.Error()})
+			}
+			out.count("hdrplot_reporters_used_repeatedly", 1)
+			for _, b := range bs {
+				c11CheckHDR(&out, &cs, "lib-hdrplot-reused-reporter", "", arrival, sorted, string(b), "")
+			}
+		}
 	}
 	if periodic {
 		// the HDR reporter asks the estimator itself: a report taken while the summary fields are
